@@ -7,13 +7,13 @@ From Slsk Require Import C07.Model C07.Proofs C08.Model C08.Proofs.
 
 (* After EVERY sequence of share operations: whatever a query lists as a normal result for a user is held by a listed
    directory, and every directory holding it permits the user (the owner-pointer invariant now always holds: F05 repaired) *)
-Theorem C08_visible_entitled : forall ops c user qs x, ops_ok ops -> user <> [] ->
+Theorem C08_visible_entitled : forall ops c user qs x, user <> [] ->
   In x (fst (query_split (run ops) c user qs)) ->
   (exists d, In d (listed (run ops)) /\ In x (ditems d)) /\ holder_permits (run ops) c user x.
 Proof. exact visible_entitled_run. Qed.
 
 (* ... and whatever is reported as locked is locked for the user by its holder *)
-Theorem C08_locked_not_entitled : forall ops c user qs x, ops_ok ops ->
+Theorem C08_locked_not_entitled : forall ops c user qs x,
   In x (snd (query_split (run ops) c user qs)) ->
   (exists d, In d (listed (run ops)) /\ In x (ditems d)) /\ holder_locks (run ops) c user x.
 Proof. exact locked_not_entitled_run. Qed.
@@ -98,7 +98,7 @@ Proof. vm_compute. repeat split; try discriminate. left. reflexivity. Qed.
 (* the histories that used to violate the property (F05: nested friends-only directory added without rescan; F06: upper-case
    phrase) now behave: the stranger sees the moved file as locked, the phrase SING removes sing.mp3 *)
 Example C08_repaired_witnesses :
-  ops_ok ops_f05 /\ fst (query_split (run ops_f05) cfg0 u1 (c [100;101;101;112])) = [] /\
+  fst (query_split (run ops_f05) cfg0 u1 (c [100;101;101;112])) = [] /\
   length (snd (query_split (run ops_f05) cfg0 u1 (c [100;101;101;112]))) = 1 /\
   fst (query_split (run ops_f04) (mkCfg [] [] [] [w_SING] 100 true) u1 (c [115;105;110;103])) = [].
 Proof. vm_compute. repeat split; repeat constructor. Qed.
